@@ -2045,8 +2045,8 @@ Section TrackerFacts.
     induction g as [|t g IH]; intros d st I Hg Hd; cbn [track_cap].
     - intros E. injection E as <-. assumption.
     - assert (Hg' : forall t', In t' g -> In t' Gall) by (intros t' Ht'; apply Hg; right; assumption).
-      destruct (cap_allows tau cap st t) as [[|]|]; [| apply IH; assumption | discriminate].
       destruct (relevant tau m t) eqn:Hr; [|apply IH; assumption].
+      destruct (cap_allows tau cap st t) as [[|]|]; [| apply IH; assumption | discriminate].
       destruct (to t) as [o|c dt]; [|discriminate].
       assert (Hd' : insts_ok (dupd d (nid (ts t)) [] (fun cs => cs ++ [nid o]))).
       { apply insts_ok_add; [assumption | apply Hg; left; reflexivity | assumption]. }
